@@ -8,12 +8,12 @@ def run(ctx):
     ctx.rule = ('real run_mapping on generated scenarios (incl. iteration count 1, zero runners-up, more runners-up than '
                 'siblings, single-child chains, flatten / dropped levels); every record checked against the arithmetic '
                 'contract: k/iterations probabilities, runner-up shape via the extracted check_choice on recomputed votes, '
-                'sums, running product, single-child semantics, inferred levels; non-trivial = a (cell, level) vote among '
+                'sums, running product, single-child semantics, inferred levels; the HDF5 output read back with hdf5_to_blob must carry the same numbers and runner-up lists; non-trivial = a (cell, level) vote among '
                 '>= 2 children')
     ctx.assumptions += ['the [-1,1] clause is checked on the implementation with a 1e-9 allowance (real outputs contain '
                         '1.0000000000000002); the model proves it exactly',
                         'aggregate probability compared with the float running product within 1e-12']
-    mapcheck.run_batch(ctx, ctx.n(30, 500), ('c03-', 'c02-votes'), 'map', max_levels=5)
+    mapcheck.run_batch(ctx, ctx.n(30, 500), ('c03-', 'c02-votes', 'c15-hdf5'), 'map', max_levels=5)
 
 
 def replay(ctx, rec):
